@@ -161,3 +161,15 @@ package cluster
 //@   ensures [a-stream-announcement-yields-no-packet] result0 != nil ==> called("toPacket")
 //@   ensures [both-parts-of-the-frame-are-read] called("proto.Unmarshal") ==> count("io.ReadFull") == 2 && ret1("io.ReadFull") == nil
 //@   noeffect toPacket
+
+// ---- C19: what memberlist gets when it asks for updates to piggyback: the queue is asked with exactly the byte
+// budget and per-message overhead memberlist gave (a smaller budget strands queued updates that are below the
+// oversize threshold but above the reduced budget: they are then sent neither way), and what the queue returns is
+// handed on unchanged.
+//@ func (*delegate).GetBroadcasts
+//@   props C19
+//@   nosafe
+//@   requires d != nil
+//@   at call TransmitLimitedQueue).GetBroadcasts assert [memberlist's-budget-is-the-queue's-budget] arg0 == d.bcast && arg1 == overhead && arg2 == limit
+//@   ensures [what-the-queue-gives-is-handed-on] count("TransmitLimitedQueue).GetBroadcasts") == 1 && result == ret("TransmitLimitedQueue).GetBroadcasts")
+//@   loop 1 invariant count("TransmitLimitedQueue).GetBroadcasts") == 1 && msgs == ret("TransmitLimitedQueue).GetBroadcasts")
